@@ -10,7 +10,7 @@ from vf import grammar as G
 from vf import pyvc, rx, vc
 from vf.core import Ob, lang_ob, norm, scenario, simple_ob, sym_run
 from vf.jasmrt import J, ensure, node_data
-from vf.pyvc import Name, ctx
+from vf.pyvc import Name, SymSeq, ctx
 
 from contracts.nodes import node_obligations
 
@@ -55,6 +55,120 @@ def manager():
                                  ok, P, detail=f"got {got}, expected {exp}", witness=f"{names[:n]}/{q}"))
             obs[-1].bounded = "CapturesManager: tables of at most 4 names (search loop executed concretely)"
     return obs
+
+
+@scenario("captures:manager-sym", CM, P, doc="get_capture_index / capture_is_registered on a table of ANY length (search-loop rule)")
+def manager_sym():
+    ensure()
+    import z3
+    from vf.core import z3_ob
+    from vf.pyvc import SymName
+    obs: List[Ob] = []
+
+    def fn():
+        m = J.cm.CapturesManager()
+        m._capture_group_references = SymSeq("refs", SymName("r_k"), 0)
+        reg = m.capture_is_registered(Name("c"))
+        try:
+            return ["ret", m.get_capture_index(Name("c")), reg]
+        except ValueError:
+            return ["raise", None, reg]
+    run = sym_run(fn)
+    kinds = set()
+    for i, p in enumerate(run.paths):
+        base = f"CapturesManager:any-length:p{i}"
+        if p.kind != "ret":
+            obs.append(simple_ob(base + ":EXC", CM + ".get_capture_index", "EXC", "only ValueError", False, P, detail=repr(p.value), witness="exc"))
+            continue
+        kind, val, reg = p.value
+        kinds.add(kind)
+        notes = [x for x in p.log if x[0].startswith("search-")]
+        if kind == "ret":
+            ok = len(notes) == 1 and notes[0][0] == "search-found" and isinstance(val, pyvc.SymInt)
+            obs.append(simple_ob(base + ":POST-first", CM + ".get_capture_index", "POST",
+                                 "a value is returned only for the LEAST index k whose entry equals the capture (search-loop rule: no earlier entry matched)",
+                                 ok, P, detail=repr(notes), witness=repr(notes)))
+            if ok:
+                obs.append(z3_ob(base + ":POST-index", CM + ".get_capture_index", "POST", "the value returned is k + 1 (group numbers are 1-based)",
+                                 p.pc, val.t == z3.Int("first!refs") + 1, P))
+            obs.append(simple_ob(base + ":POST-registered", CM + ".capture_is_registered", "POST", "capture_is_registered is True exactly when an entry equals the capture",
+                                 reg is True, P, detail=repr(reg), witness=repr(reg)))
+        else:
+            ok = len(notes) == 1 and notes[0][0] == "search-none"
+            obs.append(simple_ob(base + ":EXC-absent", CM + ".get_capture_index", "EXC", "ValueError is raised exactly when no entry equals the capture",
+                                 ok and reg is False, P, detail=repr((notes, reg)), witness=repr(reg)))
+    obs.append(simple_ob("CapturesManager:any-length:COVER", CM, "POST", "both outcomes explored (vacuity guard)", kinds == {"ret", "raise"}, P, detail=repr(kinds)))
+    # add_capture appends at the end (registration order = list order)
+    m = J.cm.CapturesManager()
+    m.add_capture("&a"); m.add_capture("&b")
+    obs.append(simple_ob("CapturesManager:add_capture:POST", CM + ".add_capture", "POST", "add_capture appends the name at the end of the table",
+                         m.capture_group_references == ["&a", "&b"], P, witness=repr(m.capture_group_references)))
+    return obs
+
+
+class ManagerStub:
+    """CapturesManager by contract: registered? is an arbitrary fact, the index an arbitrary integer"""
+
+    def __init__(self, log):
+        self.log = log
+        self.answers = {}
+
+    def capture_is_registered(self, name):
+        self.log.append(("registered?", name))
+        if name not in self.answers:          # one table, one answer per name
+            self.answers[name] = ctx().choose(2, "registered") == 0
+        return self.answers[name]
+
+    def add_capture(self, name):
+        self.log.append(("add", name))
+
+    def get_capture_index(self, name):
+        self.log.append(("index", name))
+        return pyvc.sym_int("idx")
+
+
+@scenario("captures:builders-sym", CB, P, doc="the four builders against the CapturesManager contract (any table)")
+def builders_sym():
+    ensure()
+    obs: List[Ob] = []
+    for bname, (ref_cls, call_cls, names) in BUILDERS.items():
+        for nm in names:
+            if bname == "SpecialRegisterCaptureGroupBuilder" and "." not in nm:
+                continue      # a later occurrence without width suffix raises (outside the contract), first occurrence covered below
+            log: List[Any] = []
+
+            def fn():
+                log.clear()
+                sc = J.sc.SharedContext(capture_manager=ManagerStub(log))
+                node = J.untyped.PatternNodeTmpUntyped(node_data(nm, J.gd.TimesType(1, 1), None, sc))
+                res = getattr(J.cg_builders, bname)().build(node)
+                return [res, res.get_regex(), list(log)]
+            run = sym_run(fn)
+            for i, p in enumerate(run.paths):
+                base = f"build-sym:{bname}:{nm}:p{i}"
+                if p.kind != "ret":
+                    obs.append(simple_ob(base + ":EXC", CB, "EXC", "no exception", False, P, detail=repr(p.value), witness="exc"))
+                    continue
+                res, txt, lg = p.value
+                key = clean(nm)
+                registered = any("choice!registered" in str(c) and not z3_is_not(c) for c in p.pc)
+                pr = rx.parse(txt, run.ctx.table)
+                if registered:
+                    brefs = [s_.ident for s_ in rx.walk(pr.ast) if isinstance(s_, rx.Sym) and s_.kind == "bref"]
+                    ok = type(res).__name__ == call_cls and brefs == ["sym:int:idx"] and pr.ncaps == 0 \
+                        and [x for x in lg if x[0] == "add"] == [] and ("index", key) in lg
+                    st = f"registered name: {call_cls}, a back-reference to exactly the index the table reports for {key!r}, nothing registered"
+                else:
+                    ok = type(res).__name__ == ref_cls and pr.ncaps == 1 and [x for x in lg if x[0] == "add"] == [("add", key)] \
+                        and not [x for x in lg if x[0] == "index"]
+                    st = f"unregistered name: {key!r} is registered once, {ref_cls} with exactly one capturing group"
+                obs.append(simple_ob(base + ":POST", CB, "POST", st, ok, P, detail=f"{type(res).__name__} {run.ctx.table.show(txt)} {lg}", witness=type(res).__name__))
+    return obs
+
+
+def z3_is_not(c):
+    import z3
+    return z3.is_not(c)
 
 
 # --------------------------------------------------------------------------- builders
@@ -153,7 +267,9 @@ def _cap_scenario(sid, func_cls_mod, cls, level, name, pre, spec_fn, pinned_fn=N
             c = getattr(mod, cls)
             nd = node_data(name, times, None, _mk_ctx(pre))
             if cls == "PatternNodeCaptureGroupSpecialRegisterReference":
-                node = J.sreg.SpecialRegisterCaptureGroupTypeBuilder(J.untyped.PatternNodeTmpUntyped(nd)).process()
+                node = J.sreg.SpecialRegisterCaptureGroupTypeBuilder(J.untyped.PatternNodeTmpUntyped(nd), in_deref=(level == G.DEREF)).process()
+            elif cls == "PatternNodeCaptureGroupRegisterCall":
+                node = c(nd, in_deref=(level == G.DEREF))
             else:
                 node = c(nd)
             return node.get_regex
@@ -186,41 +302,36 @@ _cap_scenario("cap:deref:call", "deref", "PatternNodeDerefPropertyCaptureGroupCa
 
 # ---- register families (README table)
 FAM = {
-    "genreg": ("[abcd]", {"64": "r{}x", "32": "e{}x", "16": "{}x", "8H": "{}h", "8L": "{}l"}, "(.)[xhl]"),
-    "indreg": ("[sd]", {"64": "r{}i", "32": "e{}i", "16": "{}i", "8L": "{}il"}, "([sd])il?"),
-    "stackreg": ("sp", {"64": "r{}", "32": "e{}", "16": "{}", "8L": "{}l"}, "(sp)l?"),
-    "basereg": ("bp", {"64": "r{}", "32": "e{}", "16": "{}", "8L": "{}l"}, "(bp)l?"),
+    "genreg": ("[abcd]", {"64": "r{}x", "32": "e{}x", "16": "{}x", "8H": "{}h", "8L": "{}l"}, "[re]?{}[xhl]"),
+    "indreg": ("[sd]", {"64": "r{}i", "32": "e{}i", "16": "{}i", "8L": "{}il"}, "[re]?{}il?"),
+    "stackreg": ("sp", {"64": "r{}", "32": "e{}", "16": "{}", "8L": "{}l"}, "[re]?{}l?"),
+    "basereg": ("bp", {"64": "r{}", "32": "e{}", "16": "{}", "8L": "{}l"}, "[re]?{}l?"),
 }
 
 
 def _reg_scenarios():
-    for fam, (letters, table, code_slice) in FAM.items():
+    for fam, (letters, table, anywidth) in FAM.items():
         for suf in [None] + list(table):
             name = f"&{fam}" + (f".{suf}" if suf else "")
             for level in (G.OPER, G.DEREF):
                 term = "," if level == G.OPER else ""
 
-                def spec_ref(fam=fam, letters=letters, table=table, suf=suf, term=term):
-                    forms = [table[suf]] if suf else list(table.values())
-                    alts = ["%?" + f.format(cap(1, letters)) for f in forms]
-                    return "(?:" + "|".join(alts) + ")" + term
-
-                def pinned_ref(code_slice=code_slice):
-                    # documented deviating behaviour: width suffix ignored, optional terminator
-                    return "%?[re]?" + code_slice + ",?"
+                def spec_ref(letters=letters, table=table, suf=suf, term=term, anywidth=anywidth):
+                    # with a suffix: exactly the register of that width (README table); without: the family's
+                    # register of any width (prefix r/e optional, any of the width endings; texts such as %rah
+                    # are not register names and are never printed by objdump)
+                    form = table[suf] if suf else anywidth
+                    return "%?" + form.format(cap(1, letters)) + term
                 _cap_scenario(f"cap:reg:ref:{name}:{level}", "cg_reg", "PatternNodeCaptureGroupSpecialRegisterReference", level,
-                              name, [], spec_ref, pinned_ref, unit=False, props=["C05", "C07", "C11"])
+                              name, [], spec_ref, None, unit=(level == G.OPER), props=["C05", "C07", "C11"])
                 if suf is None:
                     continue
 
                 def spec_call(table=table, suf=suf, term=term):
                     return "%?" + table[suf].format(bref(1)) + term
-
-                def pinned_call(table=table, suf=suf):
-                    return "%?" + table[suf].format(bref(1) + ",?") + ",?"
                 _cap_scenario(f"cap:reg:call:{name}:{level}", "cg_reg", "PatternNodeCaptureGroupRegisterCall", level,
-                              name, [f"&{fam}"], spec_call, pinned_call, bref_level=G.DEREF if level == G.DEREF else G.FIELD,
-                              unit=False, props=["C05", "C07", "C11"])
+                              name, [f"&{fam}"], spec_call, None, bref_level=G.DEREF if level == G.DEREF else G.FIELD,
+                              unit=(level == G.OPER), props=["C05", "C07", "C11"])
 
 
 _reg_scenarios()
